@@ -588,6 +588,21 @@ theorem region_assembly_channels {α} (z : α) (Mseg : Int → Img α) (lut : Li
   apply (hpix n s hs i j hi0 hi1 hj0 hj1).1
   exact grid_covers R C th tw ht hw _ (hg s (List.mem_of_getElem? hs)) (r0 + i) (c0 + j) (by omega) (by omega) (by omega) (by omega)
 
+/-- **Frame selection for several segments**: the frames a stacked read of segments `segs` fetches and decodes for output channel
+`n` are exactly the stored frames of segment `segs[n]` whose tile intersects the (non-empty) region — no frame of another segment,
+no frame outside the region, none missed. -/
+theorem selected_frames_exact_channels (lut : List LutRow) (segs : List Int) (n : Nat) (s : Int) (hs : segs[n]? = some s)
+    (r0 r1 c0 c1 th tw : Int) (ht : 1 ≤ th) (hw : 1 ≤ tw) (hr : r0 < r1) (hc : c0 < c1) (r : LutRow) :
+    r ∈ ((joinRows ((lut.filter (selected r0 r1 c0 c1 th tw)).mergeSort lutLe)
+          ((segs.zipIdx).map (fun (p : Int × Nat) => ((p.2 : Int), p.1)))).filter (fun x => x.2 == (n : Int))).map Prod.fst ↔
+      (r ∈ lut ∧ r.ch = s ∧
+        (∃ g, r0 ≤ g ∧ g < r1 ∧ r.rp ≤ g ∧ g < r.rp + th) ∧ (∃ g, c0 ≤ g ∧ g < c1 ∧ r.cp ≤ g ∧ g < r.cp + tw)) := by
+  rw [mem_join_channel _ segs n s hs r, mem_sel_iff, selected_tiles_exact r0 r1 c0 c1 th tw ht hw hr hc r]
+  constructor
+  · rintro ⟨⟨h1, h2⟩, h3⟩; exact ⟨h1, h3, h2⟩
+  · rintro ⟨h1, h3, h2⟩; exact ⟨⟨h1, h2⟩, h3⟩
+
+
 /-- **`tile_then_read` for several segments after ANY history.**  `Segmentation(tile_pixel_array=True)` (explicit positions with or
 without `omit_empty_frames`, or TILED_FULL) followed by an arbitrary sequence of segment-aware reads on that one object — any of
 them refused at any point —: every step that is a stacked read of segments `segs` (any subset of the described segments, any
@@ -784,5 +799,17 @@ example : ∃ rows frames, tiledSegTable (0 : Int) [(1, exM), (2, fun _ _ => 0)]
 example : rowsOfKept [(1, 1, 1), (1, 1, 4), (2, 3, 1)] 0 = [⟨1, 1, 0, 1⟩, ⟨1, 4, 1, 1⟩, ⟨3, 1, 2, 2⟩] := by decide
 example : stdRowColIndices (some (-2)) none none (some (-1)) 5 4 false true = .ok (3, 5, 0, 3) ∧
     stdRowColIndices (some 3) (some 5) (some 0) (some 3) 5 4 true false = .ok (4, 6, 1, 4) := by decide
+/-- frame selection for channels, instantiated: segments [2, 1] requested, region rows 4..5 × columns 1..3 of the 5 × 4 matrix in 2 × 3
+tiles: for output channel 0 (segment 2) a row of segment 2 at tile (3, 1) is fetched, the row of segment 1 at the same tile is not -/
+example : (⟨3, 1, 7, 2⟩ : LutRow) ∈ ((joinRows (([⟨3, 1, 7, 2⟩, ⟨3, 1, 2, 1⟩].filter (selected 4 6 1 4 2 3)).mergeSort lutLe)
+      (([2, 1] : List Int).zipIdx.map (fun (p : Int × Nat) => ((p.2 : Int), p.1)))).filter (fun x => x.2 == ((0 : Nat) : Int))).map Prod.fst ∧
+    (⟨3, 1, 2, 1⟩ : LutRow) ∉ ((joinRows (([⟨3, 1, 7, 2⟩, ⟨3, 1, 2, 1⟩].filter (selected 4 6 1 4 2 3)).mergeSort lutLe)
+      (([2, 1] : List Int).zipIdx.map (fun (p : Int × Nat) => ((p.2 : Int), p.1)))).filter (fun x => x.2 == ((0 : Nat) : Int))).map Prod.fst := by
+  constructor
+  · rw [selected_frames_exact_channels _ [2, 1] 0 2 rfl 4 6 1 4 2 3 (by decide) (by decide) (by decide) (by decide)]
+    exact ⟨by simp, rfl, ⟨4, by decide⟩, ⟨1, by decide⟩⟩
+  · rw [selected_frames_exact_channels _ [2, 1] 0 2 rfl 4 6 1 4 2 3 (by decide) (by decide) (by decide) (by decide)]
+    rintro ⟨_, h, _⟩
+    exact absurd h (by decide)
 
 end HdVerif.Examples.C04
